@@ -287,6 +287,20 @@ def contracts_source(gen, info, spec, lockcov=False, extra_requires=None):
     return text, linemap
 
 
+RACE_FREE_CONTAINER_OPS = {'operator[]', 'size', 'capacity', 'begin', 'end', 'find', 'back', 'front', 'at', 'empty'}
+
+
+def lock_exempt(info, method, member):
+    """[container.requirements.dataraces]: size()/capacity() of a standard container that is never
+    structurally modified after construction may be called concurrently with element accesses.  A member is
+    exempt from lock coverage in the observers size/empty/capacity iff, outside constructors, only
+    non-modifying container operations are ever applied to it (computed from the AST on every run)."""
+    if method not in ('size', 'empty', 'capacity'):
+        return False
+    ops = info.get('member_ops', {}).get(member)
+    return bool(ops) and set(ops) <= RACE_FREE_CONTAINER_OPS
+
+
 def classify(res, unit, linemap, srcname):
     """one CBMC property result -> dict(id, kind, tags)"""
     desc = res.get('description', '')
@@ -307,6 +321,11 @@ def classify(res, unit, linemap, srcname):
     if m and (desc.startswith('std.') or desc.startswith('lock coverage')):
         kind = 'lockcov' if desc.startswith('lock coverage') else 'std-precondition'
         short = desc.split(' [')[0]
+        if kind == 'lockcov':
+            mm = re.search(r'(\w+)::(\w+):(\w+)$', short)
+            short = 'lockcov:%s' % (mm.group(0) if mm else short)
+            if mm and lock_exempt(unit.info, mm.group(2), mm.group(3)):
+                return dict(base, id='%s/%s@%s:%d' % (unit.id, short, fn, line), kind='lockcov-exempt', tags=[])
         return dict(base, id='%s/%s@%s:%d' % (unit.id, short, fn, line), kind=kind, tags=m.group(1).split())
     if os.path.basename(f) == srcname and line in linemap:
         cfn, cl = linemap[line]
@@ -413,7 +432,8 @@ def run_unit(unit, want_trace=False):
 def run_units(units, progress=None):
     out = []
     with concurrent.futures.ThreadPoolExecutor(max_workers=NPROC) as ex:
-        futs = {ex.submit(run_unit, u): u for u in units}
+        import rel
+        futs = {ex.submit(rel.run_rel if isinstance(u, rel.RelUnit) else run_unit, u): u for u in units}
         for f in concurrent.futures.as_completed(futs):
             r = f.result()
             out.append(r)
